@@ -426,3 +426,106 @@ func staleSelfTest() error {
 	staleSelfTestMemo = &err
 	return err
 }
+
+// peekedBeforeNext (C05.R9 / C06.R8): `next()` hands out the look-ahead token when there is one; when there is none
+// it reads the lexer directly and returns whatever comes — a comment token included, because comments are folded into
+// the look-ahead only by `peek()`. The grammar functions therefore call next() only on a token they have peeked: on
+// every path from the function's entry to a call of next(), a call of peek() comes after the last call that may
+// consume a token. (Forward must-analysis over the CFG; calls that cannot consume leave the state unchanged.)
+func (g *grammarCtx) peekedBeforeNext(r *RuleResult, sides map[string]bool) {
+	p := g.p
+	m := g.m
+	// the premise: next() has a branch that reads the lexer itself
+	direct := false
+	allInstrs(m.next, func(in ssa.Instruction) {
+		if ci, ok := in.(ssa.CallInstruction); ok {
+			if sc := ci.Common().StaticCallee(); sc != nil && sc.Name() == "ReadToken" {
+				direct = true
+			}
+		}
+	})
+	if !direct {
+		r.OK("next() never reads the lexer itself", "every token it hands out went through peek(); nothing to require of its callers")
+		return
+	}
+	for _, fn := range m.fns {
+		if fn == m.next || fn == m.peek || !sides[g.side(fn)] {
+			continue
+		}
+		// does fn call next at all?
+		var nexts []ssa.Instruction
+		allInstrs(fn, func(in ssa.Instruction) {
+			if ci, ok := in.(ssa.CallInstruction); ok && ci.Common().StaticCallee() == m.next {
+				nexts = append(nexts, in)
+			}
+		})
+		if len(nexts) == 0 {
+			continue
+		}
+		// the comment-consuming machinery reads tokens on purpose
+		if _, isLatch := g.f.latch(rootFunc(fn)); isLatch {
+			r.OK("next() in "+p.FuncName(fn), "the comment group reader (behind its re-entrancy latch) takes tokens as they come")
+			continue
+		}
+		in := map[*ssa.BasicBlock]bool{}
+		// optimistic start (true everywhere), entry false; iterate to the greatest fixpoint
+		for _, b := range fn.Blocks {
+			in[b] = true
+		}
+		in[fn.Blocks[0]] = false
+		transfer := func(b *ssa.BasicBlock, st bool, report bool) bool {
+			for _, ins := range b.Instrs {
+				ci, ok := ins.(ssa.CallInstruction)
+				if !ok {
+					continue
+				}
+				if _, isB := ci.Common().Value.(*ssa.Builtin); isB {
+					continue
+				}
+				callees := g.f.calleesOf[ci]
+				if len(callees) == 0 {
+					if sc := ci.Common().StaticCallee(); sc != nil {
+						callees = []*ssa.Function{sc}
+					}
+				}
+				for _, cal := range callees {
+					switch {
+					case cal == m.peek:
+						st = true
+					case cal == m.next:
+						if report && !st {
+							r.Fail(ins.Pos(), p.FuncName(fn), "next() on a token that was not peeked", "on some path no peek() comes between the last consumed token and this next(): with nothing in the look-ahead next() reads the lexer directly and returns a comment token as if it were the next token — a document with a comment in that one place is rejected (or mis-parsed), so the result depends on an ignored token")
+						} else if report {
+							r.OK("next() at "+p.Pos(ins.Pos())+" in "+p.FuncName(fn), "a peek() comes after the last consumption on every path")
+						}
+						st = false
+					case inParserPkg(m, cal) && g.f.mayConsume[cal]:
+						st = false
+					}
+				}
+			}
+			return st
+		}
+		for changed := true; changed; {
+			changed = false
+			for _, b := range fn.Blocks {
+				if b == fn.Blocks[0] {
+					continue
+				}
+				st := len(b.Preds) > 0
+				for _, pd := range b.Preds {
+					if !transfer(pd, in[pd], false) {
+						st = false
+					}
+				}
+				if st != in[b] {
+					in[b] = st
+					changed = true
+				}
+			}
+		}
+		for _, b := range fn.Blocks {
+			transfer(b, in[b], true)
+		}
+	}
+}
